@@ -122,3 +122,34 @@ Definition rt_lrint (x : fval) : option Z :=
 
 (* fma: x*y+z rounded once *)
 Definition rt_fma := ffma.
+
+(** * fmod and remainder (C17 7.12.10, IEC 60559 remainder): x - n*y computed exactly, n = x/y
+    truncated (fmod) or rounded to nearest, ties to even (remainder).  NaN when x is infinite or y
+    is zero; x itself when y is infinite; a zero result has the sign of x. *)
+Definition rem_parts (m1 : positive) (e1 : Z) (m2 : positive) (e2 : Z) : Z * Z * Z :=
+  let e := Z.min e1 e2 in (Zpos m1 * 2 ^ (e1 - e), Zpos m2 * 2 ^ (e2 - e), e).
+
+Definition rt_fmod (x y : fval) : fval :=
+  match x, y with
+  | FNaN _, _ | _, FNaN _ => qnan
+  | FInf _, _ | _, FZero _ => qnan
+  | _, FInf _ => x
+  | FZero _, _ => x
+  | FFin s m1 e1, FFin _ m2 e2 =>
+      let '(a, b, e) := rem_parts m1 e1 m2 e2 in fmake s (a mod b) e
+  end.
+
+Definition rt_remainder (x y : fval) : fval :=
+  match x, y with
+  | FNaN _, _ | _, FNaN _ => qnan
+  | FInf _, _ | _, FZero _ => qnan
+  | _, FInf _ => x
+  | FZero _, _ => x
+  | FFin s m1 e1, FFin _ m2 e2 =>
+      let '(a, b, e) := rem_parts m1 e1 m2 e2 in
+      let q := a / b in
+      let r := a mod b in
+      if (b <? 2 * r) || ((2 * r =? b) && Z.odd q)
+      then fmake (negb s) (b - r) e      (* x - (q+1) y: the other side of zero *)
+      else fmake s r e
+  end.
